@@ -41,6 +41,25 @@ def main():
     if "--tier" in a: tier = a[a.index("--tier")+1]
     repo, ver = setup()
     results = []
+    if "--patch" in a:
+        # a seeded change given as a diff: apply with patch(1) to the scratch repo, run the checks, revert by re-syncing
+        pf = a[a.index("--patch")+1]
+        r = sh("patch -p1 < %s" % pf, cwd=repo)
+        if r.returncode != 0:
+            print("patch failed:", r.stdout); return
+        for prop in (props or []):
+            t0 = time.time()
+            r = sh("./check %s %s" % (prop, tier), cwd=ver, env=dict(os.environ, VERIF_SEED=os.environ.get("VERIF_SEED", "1")))
+            out = r.stdout
+            viol = [l for l in out.splitlines() if l.startswith("VIOLATION")]
+            detail = [l for l in out.splitlines() if l.startswith("  # ")][:1]
+            status = "CAUGHT" if r.returncode == 1 and viol else ("exit2" if r.returncode == 2 else "MISSED")
+            print("%-34s %-4s %-7s %5.1fs %s" % (os.path.basename(os.path.dirname(pf)) or pf, prop, status, time.time()-t0, detail[0][:200] if detail else ""), flush=True)
+            if status == "exit2":
+                print("   " + "\n   ".join(out.splitlines()[-6:]))
+        sh("rsync -a --delete --exclude target --exclude .git /repo/ %s/" % repo)
+        shutil.rmtree(os.path.join(ver, "replays"), ignore_errors=True)
+        return
     for m in MUTANTS:
         if only and m["id"] not in only: continue
         p = os.path.join(repo, m["file"])
